@@ -67,21 +67,13 @@ fn kx_slice_copy_to_slice() {
     if i < l - n { assert!(s.chunk()[i] == data[n + i]); }
 }
 
-fn three() -> ([u8; 3], [u8; 3], usize, usize) {
-    let (a, b): ([u8; 3], [u8; 3]) = (kani::any(), kani::any());
-    let (la, lb): (usize, usize) = (kani::any(), kani::any());
-    kani::assume(la <= 2 && lb <= 2);
-    (a, b, la, lb)
-}
+// copy_to_bytes of the adapters allocates a BytesMut of the requested size; with a SYMBOLIC size
+// CBMC does not finish.  These obligations therefore enumerate every (|a|, |b|, n) with |a|,|b| <= 2
+// as CONCRETE sizes (Rust loops with constant bounds, fully unrolled) while contents and Take's
+// limit stay symbolic.  Bounded, stated.
 
-// @ob props=C09,C12 tier=thorough kind=Kbounded bound="two slices of 0..=2 bytes" timeout=3000 fns=Chain::copy_to_bytes,Buf::copy_to_bytes(&[u8])
-#[kani::proof]
-#[kani::unwind(8)]
-fn kx_chain_copy_to_bytes() {
-    let (a, b, la, lb) = three();
+fn chain_case(a: &[u8; 2], b: &[u8; 2], la: usize, lb: usize, n: usize) {
     let mut c = Chain::new(&a[..la], &b[..lb]);
-    let n: usize = kani::any();
-    kani::assume(n <= la + lb);
     let r = c.copy_to_bytes(n);
     assert!(r.len() == n && c.remaining() == la + lb - n);
     let i: usize = kani::any();
@@ -89,22 +81,32 @@ fn kx_chain_copy_to_bytes() {
     // a is consumed before b
     let (ra, rb) = c.into_inner();
     assert!(ra.len() == if n < la { la - n } else { 0 } && rb.len() == if n < la { lb } else { lb - (n - la) });
-    kani::cover!(n > la && la > 0, "straddles the two halves");
-    kani::cover!(la == 0 && n > 0);
     core::mem::forget(r);
 }
 
-// @ob props=C09,C12 tier=thorough kind=Kbounded bound="two slices of 0..=2 bytes, any limit" timeout=3000 fns=Take::copy_to_bytes,Take::advance,Take::remaining
+// @ob props=C09,C12 tier=quick kind=Kbounded bound="two slices of 0..=2 bytes, every n, sizes enumerated concretely" fns=Chain::copy_to_bytes,Buf::copy_to_bytes(&[u8])
 #[kani::proof]
 #[kani::unwind(8)]
-fn kx_take_copy_to_bytes() {
-    let (a, b, la, lb) = three();
+fn kx_chain_copy_to_bytes() {
+    let (a, b): ([u8; 2], [u8; 2]) = (kani::any(), kani::any());
+    let mut la = 0;
+    while la <= 2 {
+        let mut lb = 0;
+        while lb <= 2 {
+            let mut n = 0;
+            while n <= la + lb { chain_case(&a, &b, la, lb, n); n += 1; }
+            lb += 1;
+        }
+        la += 1;
+    }
+}
+
+fn take_case(a: &[u8; 2], b: &[u8; 2], la: usize, lb: usize, n: usize) {
     let limit: usize = kani::any();
+    kani::assume(limit >= n);
     let mut t = take::new(Chain::new(&a[..la], &b[..lb]), limit);
     let rem = if limit < la + lb { limit } else { la + lb };
     assert!(t.remaining() == rem);
-    let n: usize = kani::any();
-    kani::assume(n <= rem);
     let r = t.copy_to_bytes(n);
     assert!(r.len() == n && t.limit() == limit - n && t.remaining() == rem - n);
     let i: usize = kani::any();
@@ -113,23 +115,47 @@ fn kx_take_copy_to_bytes() {
     core::mem::forget(r);
 }
 
-// @ob props=C09,C13 tier=thorough kind=Kbounded bound="two slices of 0..=2 bytes" timeout=3000 expect="panic:(Take<.*copy_to_bytes|Take<.*advance|panic_advance|Chain<.*copy_to_bytes)" fns=Take::copy_to_bytes,Take::advance,Chain::copy_to_bytes
+// @ob props=C09,C12 tier=quick kind=Kbounded bound="two slices of 0..=2 bytes, every n, any limit >= n; sizes enumerated concretely" fns=Take::copy_to_bytes,Take::advance,Take::remaining
+#[kani::proof]
+#[kani::unwind(8)]
+fn kx_take_copy_to_bytes() {
+    let (a, b): ([u8; 2], [u8; 2]) = (kani::any(), kani::any());
+    let mut la = 0;
+    while la <= 2 {
+        let mut lb = 0;
+        while lb <= 2 {
+            let mut n = 0;
+            while n <= la + lb { take_case(&a, &b, la, lb, n); n += 1; }
+            lb += 1;
+        }
+        la += 1;
+    }
+}
+
+// @ob props=C09,C13 tier=quick kind=Kbounded bound="slices of 1 byte" expect="panic:(Take<.*copy_to_bytes|Take<.*advance|panic_advance|Chain<.*copy_to_bytes)" fns=Take::copy_to_bytes,Take::advance,Chain::copy_to_bytes
 #[kani::proof]
 #[kani::unwind(8)]
 fn kx_take_chain_beyond_remaining_panics() {
-    let (a, b, la, lb) = three();
+    let (a, b): ([u8; 1], [u8; 1]) = (kani::any(), kani::any());
     let which: u8 = kani::any();
-    let n: usize = kani::any();
-    kani::assume(n <= 16);
     if which == 0 {
+        let mut t = take::new(&a[..], 1);
+        let _ = t.copy_to_bytes(2);
+    } else if which == 1 {
         let limit: usize = kani::any();
-        let mut t = take::new(&a[..la], limit);
+        let mut t = take::new(&a[..], limit);
+        let n: usize = kani::any();
         kani::assume(n > t.remaining());
-        if kani::any() { let _ = t.copy_to_bytes(n); } else { t.advance(n); }
+        t.advance(n);
+    } else if which == 2 {
+        let mut c = Chain::new(&a[..], &b[..]);
+        let r = c.copy_to_bytes(3);
+        core::mem::forget(r);
     } else {
-        let mut c = Chain::new(&a[..la], &b[..lb]);
-        kani::assume(n > la + lb);
-        if kani::any() { let r = c.copy_to_bytes(n); core::mem::forget(r); } else { c.advance(n); }
+        let mut c = Chain::new(&a[..], &b[..]);
+        let n: usize = kani::any();
+        kani::assume(n > 2);
+        c.advance(n);
     }
     assert!(false, "returned although fewer bytes remain");
 }
